@@ -72,6 +72,15 @@ def properties_of(v, job):
         out.add("C01")
     if rule.startswith("scanner-"):
         out.add("C12")
+        out.add("C13")
+        # the entry-point explorations assume the scanner contract: the grammar properties that
+        # rest on this scanner are not established without it
+        name = job["root"].split("::")[-1]
+        if name == "match_uri_vectored":
+            out.add("C06")
+        elif name in ("match_header_value_vectored", "match_header_name_vectored"):
+            out.add("C08")
+            out.add("C14")
     if rule.startswith("hygiene:"):
         out.add("C05")
     if rule.startswith("zero-copy:"):
